@@ -729,6 +729,27 @@ def alt_params(obj):
         cur = obj.get_params(deep=False)
     except Exception:
         return out
+    if "estimator" in cur and cur["estimator"] is not None:
+        # exchange the wrapped scikit-learn estimator for one of another class (whatever the wrapper resolved or cached for
+        # the first one -- signatures, defaults -- must not survive; seed R7F4)
+        from sklearn.base import is_classifier, is_regressor
+        from sklearn.linear_model import LinearRegression
+        from sklearn.naive_bayes import GaussianNB
+        from sklearn.tree import DecisionTreeClassifier, DecisionTreeRegressor
+
+        e = cur["estimator"]
+        if type(obj).__name__ == "SklearnNormalRegressor":   # needs predict(return_std=True)
+            from sklearn.gaussian_process import GaussianProcessRegressor
+            from sklearn.linear_model import BayesianRidge
+
+            alts = [BayesianRidge(), GaussianProcessRegressor(random_state=0)]
+        else:
+            alts = ([GaussianNB(), DecisionTreeClassifier(random_state=0)] if is_classifier(e)
+                    else [LinearRegression(), DecisionTreeRegressor(random_state=0)] if is_regressor(e) else [])
+        for v in alts:
+            if type(v) is not type(e):
+                out.append(("estimator", v))
+                break
     for p, vals in ALT.items():
         if p not in cur:
             continue
@@ -796,7 +817,11 @@ def estimator_setparams_refit(case, seed, rng, n_changes=2):
             return findings, info
         par_set = snap.params_snapshot(est)
         which = rng.choice([1, 2])
-        fresh = clone(est)
+        try:
+            fresh = clone(est)
+        except Exception as e:  # noqa: BLE001  (the new value is not admissible for this class after all)
+            info["set_params_raised"] = f"{p}: clone {type(e).__name__}"
+            return findings, info
         out_used = _fit_outcome(est, case, data, which)
         d2 = case.data(seed)
         out_fresh = _fit_outcome(fresh, case, d2, which)
